@@ -80,6 +80,7 @@ class Report:
         self.inconclusive = []
         self.evaluations = 0
         self.distinct = set()
+        self.distinct_count = None  # set when distinct cases are counted elsewhere (e.g. inside the driver)
         self.samples = []
         self.extra = {}
         self.rule = ""
@@ -147,7 +148,7 @@ class Report:
             print("INCONCLUSIVE property=%s reason=%s" % (self.prop_id, r))
         coverage = {
             "evaluations": int(self.evaluations),
-            "distinct_nontrivial": int(len(self.distinct)),
+            "distinct_nontrivial": int(self.distinct_count if self.distinct_count is not None else len(self.distinct)),
             "rule": self.rule,
             "samples": self.samples if self.samples else ["<no sample recorded>"],
             "undecided_by_oracle": int(self.undecided),
@@ -171,7 +172,7 @@ class Report:
         status = "VIOLATED" if unlisted else ("INCONCLUSIVE" if self.inconclusive else "HELD")
         print(
             "[%s] %s tier=%s seed=%d evaluations=%d distinct_nontrivial=%d undecided=%d known_findings=%d wall=%.1fs"
-            % (self.prop_id, status, self.tier, self.seed, self.evaluations, len(self.distinct), self.undecided, len(known_hits), wall)
+            % (self.prop_id, status, self.tier, self.seed, self.evaluations, self.distinct_count if self.distinct_count is not None else len(self.distinct), self.undecided, len(known_hits), wall)
         )
         if unlisted:
             return 1
